@@ -409,7 +409,8 @@ def run_tlc(module, cfg=None, files=None, workers=None, timeout_s=600, extra=Non
                     fh.write(f"  {k} = {v}\n")
         # NOTE: -Xss must be on the java command line: the launcher sizes the main thread (which
         # evaluates initial states and their invariants) from it; JAVA_TOOL_OPTIONS comes too late.
-        cmd = ["timeout", str(int(timeout_s)), "java", java_opts, "-XX:+UseParallelGC", "-cp", TLC_CP, "tlc2.TLC",
+        os.makedirs(os.path.join(tmp, "jtmp"), exist_ok=True)       # TLC's own scratch (tlc-<n> directories) goes with this run's directory, not into /tmp
+        cmd = ["timeout", str(int(timeout_s)), "java", java_opts, "-Djava.io.tmpdir=" + os.path.join(tmp, "jtmp"), "-XX:+UseParallelGC", "-cp", TLC_CP, "tlc2.TLC",
                "-workers", str(workers or NCPU), "-metadir", os.path.join(tmp, "meta"), "-config", cfg]
         if simulate:
             cmd += ["-simulate", simulate]
